@@ -131,7 +131,10 @@ func parseValue(dec *json.Decoder) (any, error) {
 				}
 				m.Set(key, val)
 			}
-			_, _ = dec.Token() // consume '}'
+			// consume '}': a line cut in the middle of an object is not a log entry
+			if _, err := dec.Token(); err != nil {
+				return nil, err
+			}
 			return m, nil
 		case '[':
 			var arr []any
@@ -142,7 +145,10 @@ func parseValue(dec *json.Decoder) (any, error) {
 				}
 				arr = append(arr, val)
 			}
-			_, _ = dec.Token() // consume ']'
+			// consume ']'
+			if _, err := dec.Token(); err != nil {
+				return nil, err
+			}
 			return arr, nil
 		}
 	default:
